@@ -139,6 +139,9 @@ TABLE.update({
     "c02_wildcard_ranges_over_scalar.diff": ("contracts.c02", "IRBuilder.decider", None),
     "c16_unknown_bound_defaults_to_zero.diff": ("contracts.c14b", "_resolve_for_loop_constant", None),
     "c01_const_row_le_as_lt.diff": ("contracts.c07", "_constant_comparison_row", "comparator <="),
+    "c06_assign_prop_wrong_entity.diff": ("contracts.c16b", "lower_assign_stmt", "entity.property"),
+    "c06_assign_inline_any_property.diff": ("contracts.c16b", "lower_assign_stmt", "entity.property"),
+    "c20_assign_constant_not_declared.diff": ("contracts.c16b", "lower_assign_stmt", "name = expression"),
     "c08_preserved_shares_network_zero.diff": ("contracts.c12", "_restore_preserved_connection", None),
     "c08_preserved_routing_failure_ignored.diff": ("contracts.c12", "_restore_preserved_connection", None),
     "c08_preserved_span_doubled.diff": ("contracts.c12", "_restore_preserved_connection", None),
